@@ -651,7 +651,7 @@ func zzH14_int_literals() {
 	}
 	text += string(d)
 	ref := zzCheckLex(text, "int")
-	zzAssert(zzAnd(ref.ok, len(ref.toks) == 2), "C14.int.one_token") // INT EOF
+	zzAssert(zzAnd(ref.ok, len(zzDropFinalNewline(ref.toks)) == 2), "C14.int.one_token") // INT EOF
 	// and through the parser: a Literal carrying that value
 	e, err := ParseExpr("i.star", text, 0)
 	zzAssert(err == nil, "C14.int.parses")
